@@ -197,4 +197,15 @@ def hierarchy_order(doc, k):
     return d, 1
 
 
-REWRITES = [null_order_offsets, unit_as_general, drop_defaults, metadata_holes, foreign_encoder, extra_attributes, hierarchy_order]
+def parallel_edge(doc, k):
+    """One edge written twice: two links between the same pair of ports (the second one must not replace
+    the first)."""
+    d = copy.deepcopy(doc)
+    if not d["edges"]:
+        return d, 0
+    e = d["edges"][(k * 7 + 3) % len(d["edges"])]
+    d["edges"].append(copy.deepcopy(e))
+    return d, 1
+
+
+REWRITES = [null_order_offsets, unit_as_general, drop_defaults, metadata_holes, foreign_encoder, extra_attributes, hierarchy_order, parallel_edge]
